@@ -268,6 +268,25 @@ func BuildSelect(query *Query, slct *sqlparser.Select) error {
 	query.selectDefinition = *slct.SelectExprs
 	query.whereDefinition = slct.Where
 	query.distinct = slct.Distinct
+	// rows are sorted after the projection: an ORDER BY key that names a select
+	// item by its qualified source name (SELECT x.a ... ORDER BY x.a) sorts by
+	// the column that item produces
+	for i, order := range query.orderByDefinition {
+		for _, item := range query.selectDefinition.Exprs {
+			aliased, ok := item.(*sqlparser.AliasedExpr)
+			if !ok {
+				continue
+			}
+			qualifier, name, err := BuildColumnName(aliased.Expr)
+			if err != nil || len(qualifier) == 0 || fmt.Sprintf("%s.%s", qualifier, name) != order.Key {
+				continue
+			}
+			query.orderByDefinition[i].Key = aliased.ColumnName()
+			if len(aliased.As.String()) > 0 {
+				query.orderByDefinition[i].Key = aliased.As.String()
+			}
+		}
+	}
 	return nil
 }
 
